@@ -63,7 +63,12 @@ fn client_received_a_message(
                 return;
             };
             cmd.add(move |world: &mut World| {
-                let mut entity = world.entity_mut(c_e_id);
+                if world.get_entity(c_p_id).is_none() {
+                    return;
+                }
+                let Some(mut entity) = world.get_entity_mut(c_e_id) else {
+                    return;
+                };
                 let opt_parent = entity.get::<Parent>();
                 if opt_parent.is_none() || opt_parent.unwrap().get() != c_p_id {
                     entity.set_parent(c_p_id);
